@@ -5,7 +5,22 @@ import os
 
 from common import VERIF, CorrResult, Failure, run_check
 import resolver_common as rc
-from translate_resolver import translate
+from translate_resolver import translate as translate_tables
+from translate_merge import translate as translate_merge_program
+
+
+def translate():
+    """Both generated files: the tables (rank order, aliases, offsets, constants) and the IR program of
+    FinalFeedback.merge's tail / finalize's conditions."""
+    return {"tables": translate_tables(), "merge_program": translate_merge_program()}
+
+
+TIE_THEOREMS = [
+    "Pedal.Resolver.merge_ir_agrees",       # generated merge tail = hand-written reading, on every observation
+    "Pedal.Resolver.finalize_ir_agrees",    # generated finalize conditions / keys / shape
+    "Pedal.Resolver.merge_eq_spec",         # the hand model's merge is that reading
+    "Pedal.Resolver.resolveIR_eq_resolve",  # what the driver executes = the model the theorems are about
+]
 
 
 def corpus_cases(prop):
@@ -143,7 +158,7 @@ def make(prop, oracle, theorems, *, domain=rc.in_c01_domain, gen_kwargs=None, mo
         return 0
 
     def go():
-        return run_check(prop, proof_modules=["PedalProofs." + prop], theorems=theorems, driver_exe="driver_resolver",
+        return run_check(prop, proof_modules=["PedalProofs." + prop], theorems=list(theorems) + TIE_THEOREMS, driver_exe="driver_resolver",
                          translate=translate,
                          correspond=correspond, search=search, replay=replay, model_notes=model_notes,
                          refuted_full=refuted_full, leanchecker_modules=["PedalProofs." + prop])
